@@ -192,7 +192,7 @@ def run(ctx):
     else:
         graph_stream(ctx, 40000)
         disamb_stream(ctx, 40000)
-        R.run_records(ctx, "C02", 4000, exhaustive_n=4, field=12)
+        R.run_records(ctx, "C02", 1500, exhaustive_n=4, field=8)
 
 
 def replay(ctx, doc):
